@@ -152,6 +152,14 @@ impl<F: WithSmallOrderMulGroup<3> + SerdeObject> ProvingKey<F> {
         p: &Argument,
     ) -> io::Result<Self> {
         let permutations = read_polynomial_vec(reader, format)?;
+        if permutations.len() != p.columns.len()
+            || permutations.iter().any(|poly| poly.len() != 1 << domain.k())
+        {
+            return Err(io::Error::new(
+                io::ErrorKind::InvalidData,
+                "unexpected number or length of permutation polynomials",
+            ));
+        }
         let (polys, cosets) = compute_polys_and_cosets::<F>(domain, p, &permutations);
         Ok(ProvingKey {
             permutations,
